@@ -237,15 +237,22 @@ func TestVerifC12(t *testing.T) {
 	r := c12.NewRun("TestVerifC12")
 	defer r.Close()
 	r.Print = func(op string, res c12.Result) string {
-		if res.Class == "ok" || res.Class == "err" || res.Class == "z" {
-			if strings.HasPrefix(op, "unz") {
+		if strings.HasPrefix(op, "unz") {
+			// zstd is outside the model ("zstd abstract"): what the model and the code are compared on is panic-freedom;
+			// an out-of-proportion allocation of the decoder is reported by the oracle (key C12:unz:alloc) only
+			if res.Class == "ok" || res.Class == "err" || res.Class == "alloc" {
 				return "nopanic"
 			}
+			return res.Class
+		}
+		if res.Class == "ok" || res.Class == "err" || res.Class == "z" {
 			return res.Answer
 		}
 		return res.Class
 	}
-	r.Exempt = func(op string, res c12.Result) bool { return strings.HasPrefix(op, "ll ") && strings.HasPrefix(res.Answer, "z") }
+	r.Exempt = func(op string, res c12.Result) bool {
+		return strings.HasPrefix(op, "ll ") && strings.HasPrefix(res.Answer, "z")
+	}
 	dir, err := os.MkdirTemp("", "verif-c12-llgen-")
 	if err != nil {
 		t.Fatal(err)
